@@ -55,7 +55,18 @@ type Op struct {
 	Val   int    `json:"val"`
 }
 
+// hot-reload case: a SCRIPT handler function (one shared AST, as a registered route has) is served several times by
+// the real HotHandler; before request k the autoload file App/P.php is rewritten to version k.  Every request
+// runs on its own TempVM, so request k must see version k of the class (and of its helper function).
+//
+//	{"hot":{"body":"$o = new App\\P(); $w->write($o->v());","requests":3}}
+type Hot struct {
+	Body     string `json:"body"`
+	Requests int    `json:"requests"`
+}
+
 type Case struct {
+	Hot *Hot `json:"hot,omitempty"`
 	Scripts bool    `json:"scripts"` // the history contains script-level ops: load the PHP function library
 	Names  []string `json:"names"`
 	Consts []string `json:"consts"`
@@ -487,7 +498,75 @@ func (w *world) serveRequest(ops []Op) (steps []Step) {
 	return append(steps, end)
 }
 
+func runHot(h *Hot) (obs Obs) {
+	defer func() {
+		if r := recover(); r != nil {
+			obs.Err = fmt.Sprint(r)
+		}
+	}()
+	dir, err := os.MkdirTemp("", "c12hot-")
+	if err != nil {
+		return Obs{Err: err.Error()}
+	}
+	defer os.RemoveAll(dir)
+	dir, _ = filepath.EvalSymlinks(dir)
+	write := func(k int) {
+		src := fmt.Sprintf("<?php\nnamespace App;\nclass P { function v() { return %d; } static function s() { return %d; } }\n", k, k)
+		os.WriteFile(filepath.Join(dir, "P.php"), []byte(src), 0o644)
+	}
+	p := parser.NewParser()
+	base := runtime.NewVM(p).(*runtime.VM)
+	var thrown data.Control
+	base.SetThrowControl(func(acl data.Control) { thrown = acl })
+	php.Load(base)
+	ohttp.Load(base)
+	base.AddNamespace("App", dir)
+	prog, acl := p.ParseString("function h($r, $w) {\n"+h.Body+"\n}\n", "hot.zy")
+	if acl != nil {
+		return Obs{Err: "parse: " + acl.AsString()}
+	}
+	ctx := base.CreateContext(p.GetVariables())
+	if _, ctl := prog.GetValue(ctx); ctl != nil {
+		return Obs{Err: "run: " + ctl.AsString()}
+	}
+	fn, ok := base.GetFunc("h")
+	if !ok {
+		return Obs{Err: "no function h"}
+	}
+	serverCtx := base.CreateContext(nil)
+	hh := ohttp.HotHandler{Value: fn, Ctx: serverCtx.CreateContext(fn.GetVariables())}
+	for k := 1; k <= h.Requests; k++ {
+		write(k)
+		thrown = nil
+		rec := httptest.NewRecorder()
+		st := Step{D: -1}
+		func() {
+			defer func() {
+				if r := recover(); r != nil {
+					st.R = 2
+					st.Msg = fmt.Sprint(r)
+				}
+			}()
+			hh.ServeHTTP(rec, httptest.NewRequest("GET", "/hot", nil))
+		}()
+		if thrown != nil && st.R == 0 {
+			st.R = 1
+			st.Msg = thrown.AsString()
+		}
+		st.Out = rec.Body.String()
+		obs.Steps = append(obs.Steps, st)
+	}
+	// the base must not have the class
+	if _, ok := base.GetClass("App\\P"); ok {
+		obs.Err = "base VM resolves App\\P after the requests"
+	}
+	return obs
+}
+
 func runCase(c *Case) (obs Obs) {
+	if c.Hot != nil {
+		return runHot(c.Hot)
+	}
 	defer func() {
 		if r := recover(); r != nil {
 			obs.Err = fmt.Sprint(r)
